@@ -379,6 +379,20 @@ let () =
          | _, _, None -> "ERR-frag")
     | _ -> "BADARGS")
 
+(* carbon notation of fatty acyl groups: acyl <iso 0|1> <ante 0|1> <n> [c<p> | t<p> | <p>]...  ->  token \x1e fragment *)
+let () =
+  register "acyl" (function
+    | iso :: ante :: n :: dbs ->
+        let db s = match s.[0] with
+          | 'c' -> (DbCis, nat_of_int (int_of_string (String.sub s 1 (String.length s - 1))))
+          | 't' -> (DbTrans, nat_of_int (int_of_string (String.sub s 1 (String.length s - 1))))
+          | _ -> (DbPlain, nat_of_int (int_of_string s)) in
+        let a = { ac_iso = (iso = "1"); ac_ante = (ante = "1"); ac_n = nat_of_int (int_of_string n); ac_dbs = List.map db dbs } in
+        (match acyl_text a with
+         | Some t -> implode (acyl_token a) ^ "\x1e" ^ implode t
+         | None -> "NOSPEC")
+    | _ -> "BADARGS")
+
 (* ------------------------------------------------------------------ skeleton changes (C14) *)
 let () =
   let yes b = if b then "1" else "0" in
